@@ -13,12 +13,14 @@ from dask_array.io._base import IO
 class FromNpyStack(IO):
     """Expression for loading an array from a stack of .npy files."""
 
-    _parameters = ["dirname", "mmap_mode"]
-    _defaults = {"mmap_mode": "r"}
+    _parameters = ["dirname", "mmap_mode", "info"]
+    _defaults = {"mmap_mode": "r", "info": None}
 
     @functools.cached_property
     def _info(self):
         """Load and cache the info file."""
+        if self.operand("info") is not None:
+            return self.operand("info")
         dirname = self.operand("dirname")
         with open(os.path.join(dirname, "info"), "rb") as f:
             return pickle.load(f)
@@ -64,4 +66,8 @@ def from_npy_stack(dirname, mmap_mode="r"):
     """
     from dask_array._new_collection import new_collection
 
-    return new_collection(FromNpyStack(dirname=dirname, mmap_mode=mmap_mode))
+    # The stack's metadata is part of the expression's identity: a directory that was
+    # rewritten must not be served by an earlier, still-alive expression for the same path.
+    with open(os.path.join(dirname, "info"), "rb") as f:
+        info = pickle.load(f)
+    return new_collection(FromNpyStack(dirname=dirname, mmap_mode=mmap_mode, info=info))
